@@ -65,6 +65,10 @@ def payloads():
             {"f": 0.1, "g": 1e308, "z": -0.0, "t": True, "x": False}, {"k\nwith break": "v", "\u2028": "\r"},
             {"deep": [[[[{"x": ["a\nb", {"y": "\U0001F600"}]}]]]]}, {"l": [], "d": {}, "e": ""},
             {"long": "a\n" * 50}]
+    # the SAME container object in several places (one defaults dict reused, one row listed three times, one empty list under
+    # two keys): a DAG, not a cycle - the JSON text repeats the value
+    row, empty, dflt = {"id": 7, "tags": ["x"]}, [], {"retries": 3}
+    out += [{"rows": [row, row, row]}, {"a": empty, "b": empty}, {"opts": dflt, "nested": {"opts": dflt, "l": [dflt]}}]
     return out
 
 
